@@ -24,7 +24,15 @@ func getLocation(offset int32, buf []byte) *time.Location {
 	mutexTimeZones.RUnlock()
 	mutexTimeZones.Lock()
 	l := time.FixedZone(string(buf), int(offset))
+	if len(cacheTimeZone) >= maxCachedTimeZones {
+		// real files use a few dozen offsets; a process fed with arbitrary ones starts over
+		// instead of keeping (and growing a table for) every offset it has ever seen
+		cacheTimeZone = make(map[int32]*time.Location)
+	}
 	cacheTimeZone[offset] = l
 	mutexTimeZones.Unlock()
 	return l
 }
+
+// maxCachedTimeZones bounds the time zone cache.
+const maxCachedTimeZones = 256
